@@ -359,6 +359,8 @@ func runStored(w *gen.Writer, raw json.RawMessage, class string) {
 		runBadTemplate(w, string(rc.Payload), class)
 	case "format":
 		runFormat(w, *rc.Format, class)
+	case "funcmap":
+		runFuncmap(w, string(rc.Payload), class)
 	case "e2e":
 		replayEndToEnd(w, string(rc.Payload), string(rc.RepoValue), rc.LocalPrint)
 	default:
@@ -423,6 +425,23 @@ func main() {
 	for i, n := 0, f.N(80, 3000); i < n; i++ {
 		pagesFor(w, r, randomPayload(r), "page-random")
 	}
+	// values at the excerpt-size boundary: template functions directly, and as the text around the matches of result pages
+	bvs := boundaryValues()
+	for _, p := range append(append([]string{}, fixedPayloads...), bvs...) {
+		runFuncmap(w, p, "funcmap")
+	}
+	for i, n := 0, f.N(200, 20000); i < n; i++ {
+		runFuncmap(w, randomBoundaryValue(r), "funcmap-random")
+	}
+	for i, p := range bvs {
+		for _, page := range []string{"results-remote", "results-local", "print"} {
+			if page == "print" && i%4 != 0 {
+				continue
+			}
+			runPage(w, pageSpec{Page: page, Payload: []byte(p), FileTpl: fileURLTemplates[1], FragTpl: lineFragmentTemplates[1]}, "page-boundary")
+		}
+	}
+	w.Count("boundary-values", len(bvs))
 	for _, t := range badCommitURLTemplates {
 		runBadTemplate(w, t, "bad-template")
 	}
